@@ -307,3 +307,35 @@ def allargs(c: ast.Call) -> List[ast.expr]:
     """argument values in signature order: the loader rewrites calls of repository functions to keyword form (keywords
     sorted by parameter position), library calls keep their positional arguments"""
     return list(c.args) + [k.value for k in c.keywords if k.arg is not None]
+
+
+def comp_struct(e: ast.AST) -> Optional[Tuple[str, List[Tuple[str, List[str]]]]]:
+    """name-independent description of a comprehension: (element, [(iterable, [conditions]), ...]) where the loop variables
+    are written $0, $1, ... in binding order (tuple targets: $0_0, $0_1).  None when `e` is not a comprehension."""
+    import copy as _copy
+    if not isinstance(e, (ast.ListComp, ast.SetComp, ast.GeneratorExp, ast.DictComp)):
+        return None
+    ren: Dict[str, str] = {}
+    gens = []
+
+    class R(ast.NodeTransformer):
+        def visit_Name(self, n):
+            return ast.copy_location(ast.Name(id=ren[n.id], ctx=n.ctx), n) if n.id in ren else n
+
+    def txt(x):
+        return norm(R().visit(_copy.deepcopy(x))).replace("_DOLLAR_", "$")
+    for i, g in enumerate(e.generators):
+        it = txt(g.iter)
+        if isinstance(g.target, ast.Name):
+            ren[g.target.id] = f"_DOLLAR_{i}"
+        elif isinstance(g.target, (ast.Tuple, ast.List)):
+            for j, t in enumerate(g.target.elts):
+                if isinstance(t, ast.Name):
+                    ren[t.id] = f"_DOLLAR_{i}_{j}"
+                elif isinstance(t, (ast.Tuple, ast.List)):
+                    for k_, t2 in enumerate(t.elts):
+                        if isinstance(t2, ast.Name):
+                            ren[t2.id] = f"_DOLLAR_{i}_{j}_{k_}"
+        gens.append((it, [txt(c) for c in g.ifs]))
+    el = (txt(e.key) + ": " + txt(e.value)) if isinstance(e, ast.DictComp) else txt(e.elt)
+    return el, gens
